@@ -468,7 +468,8 @@ class IsaCheck:
         self.cls = "cost"
         if "cost" not in sem.unchecked:
             cc = [e for e in st.eff if e[0] == "cost"]
-            remaining = list(cc)
+            # a term with a count of zero costs nothing and accesses nothing
+            remaining = [e for e in cc if const_under(e[2], care) != 0]
             for (kind, n, addr) in sem.costs:
                 found = None
                 near = None
